@@ -214,6 +214,49 @@ static int replay_C03(const Args&)
    return fails;
 }
 
+// ---- C15: derived operations against primitives, on real nodes
+static int replay_C15(const Args&)
+{
+   impl::Lexicon lex; impl::Translation_unit unit{lex};
+   impl::Region* r = unit.global_region();
+   auto* b = lex.make_block(*r);
+   CLAUSE(b->try_block() == (b->handlers().size() > 0), "a block without handlers is not a try-block");
+   b->new_handler(lex.get_identifier(u8"e"), lex.int_type());
+   CLAUSE(b->try_block() == (b->handlers().size() > 0), "a block with a handler is a try-block");
+   CLAUSE(&b->body() == &b->region().body(), "block body is its region's body");
+   impl::Warehouse<Type> wh; wh.push_back(lex.int_type()); wh.push_back(lex.bool_type());
+   auto& fn = lex.get_function(lex.get_product(wh), lex.void_type());
+   CLAUSE(fn.source().size() == fn.source().elements().size() && &fn.source()[1] == &*fn.source().elements().position(1), "product size / indexing agree with its elements");
+   CLAUSE(&fn.linkage() == &fn.transfer().linkage() && fn.linkage() == lex.cxx_linkage(), "type linkage is its transfer's linkage");
+   CLAUSE(lex.cxx_linkage() == lex.cxx_linkage() && !(lex.cxx_linkage() == lex.c_linkage()) && lex.get_linkage(u8"C") == lex.c_linkage(), "linkage equality follows spelling");
+   auto& seq = fn.source().elements(); std::size_t n = 0; for (auto it = seq.begin(); it != seq.end(); ++it) { if (&*it != &*seq.position(n)) ++fails; ++n; }
+   CLAUSE(n == seq.size() && seq.empty() == (seq.size() == 0), "iteration visits exactly size() elements");
+   return fails;
+}
+
+// ---- C11: qualified types in normal form
+static int replay_C11(const Args&)
+{
+   impl::Lexicon lex;
+   const Qualifiers qs[] = { lex.const_qualifier(), lex.volatile_qualifier(), lex.restrict_qualifier() };
+   auto& base = lex.get_pointer(lex.int_type());
+   bool refused = false; try { (void)lex.get_qualified(Qualifiers{}, base); } catch (const std::logic_error&) { refused = true; }
+   CLAUSE(refused, "an empty qualifier set is refused with a logic error");
+   bool ok = true, order = true;
+   for (unsigned a = 1; a < 8; ++a) for (unsigned b = 1; b < 8; ++b) {
+      Qualifiers qa{}, qb{}; for (int i = 0; i < 3; ++i) { if ((a >> i) & 1) qa |= qs[i]; if ((b >> i) & 1) qb |= qs[i]; }
+      auto& inner = lex.get_qualified(qa, base); auto& outer = lex.get_qualified(qb, inner);
+      if (util::rep(outer.qualifiers()) == 0) ok = false;
+      if (util::view<Qualified>(outer.main_variant()) != nullptr) ok = false;
+      if (&outer.main_variant() != static_cast<const Type*>(&base) || outer.qualifiers() != (qa | qb)) ok = false;
+      if (&outer != &lex.get_qualified(qa | qb, base)) order = false;
+      if (&lex.get_qualified(qa, lex.get_qualified(qb, base)) != &outer) order = false;
+   }
+   CLAUSE(ok, "qualifying a qualified type yields the union of the qualifier sets over the innermost unqualified type");
+   CLAUSE(order, "the result is independent of the order and grouping in which qualifiers are applied");
+   return fails;
+}
+
 int main(int argc, char** argv)
 {
    if (argc < 2) return 3;
@@ -225,6 +268,8 @@ int main(int argc, char** argv)
       else if (f == "C08") n = replay_C08(a);
       else if (f == "C10") n = replay_C10(a);
       else if (f == "C03") n = replay_C03(a);
+      else if (f == "C15") n = replay_C15(a);
+      else if (f == "C11") n = replay_C11(a);
       else { std::cerr << "unknown replay family " << f << "\n"; return 3; }
    } catch (const std::exception& e) { std::cout << "REPLAY-EXCEPTION: " << e.what() << "\n"; return 4; }
    return n > 0 ? 1 : 0;
